@@ -601,6 +601,13 @@ pub fn regression_pairs() -> Vec<(T, T)> {
         (s1, e3v0),
         (ty::ptr(false, s1), ty::ptr(false, s2)),
         (ty::opt(Ty::Void.into()), ty::opt(Ty::Type.into())),
+        // pointer mutability under an array / slice constructor (seeded change C12_2)
+        (ty::aarr(2, ty::ptr(false, i32_)), ty::arr(2, ty::ptr(true, i32_))),
+        (ty::aarr(2, ty::ptr(false, i32_)), ty::slice(ty::ptr(true, i32_))),
+        (ty::aarr(2, ty::ptr(true, i32_)), ty::arr(2, ty::ptr(false, i32_))),
+        (ty::slice(ty::ptr(false, i32_)), ty::slice(ty::ptr(true, i32_))),
+        (ty::arr(2, ty::ptr(false, i32_)), ty::arr(2, ty::ptr(true, i32_))),
+        (ty::opt(ty::ptr(false, i32_)), ty::opt(ty::ptr(true, i32_))),
     ]
 }
 
